@@ -20,7 +20,7 @@ contract(M + "PCSO.add_constraint_eq_zero", props=["C03", "C19"],
                   "implies(sden(H) == 0, %s == 0)" % _F,
                   "implies(sden(H) != 0, %s >= lam)" % _F,
                   "self._ancilla == old(self._ancilla)",
-                  "wf(self)", "result is self"])
+                  "wf(self)", "result is self", "implies(old(bk(self)), bk(self))"])
 
 # ---------------------------------------------------------------------------------- inequalities: same composition
 _N = "(self._ancilla - old(self._ancilla))"
@@ -39,7 +39,7 @@ def _ineq(name, holds, wit):
                       "implies((%s) and %s == 0, %s == 0)" % (holds, _N, _F),
                       "implies((%s) and log_trick and slackval(old(self._ancilla), %s, True) == %s, %s == 0)"
                       % (holds, _N, wit, _F),
-                      "self._ancilla >= old(self._ancilla)", "wf(self)", "result is self"])
+                      "self._ancilla >= old(self._ancilla)", "wf(self)", "result is self", "implies(old(bk(self)), bk(self))"])
 
 
 _ineq("add_constraint_le_zero", "sden(H) <= 0", "-sden(H)")
@@ -57,4 +57,4 @@ contract(M + "PCSO.add_constraint_ne_zero", props=["C03", "C19"],
          ensures=[_F + " >= 0",
                   "implies(sden(H) == 0 and not warned_unsat(), %s >= lam)" % _F,
                   "implies(sden(H) != 0 and %s == 0, %s == 0)" % (_N, _F),
-                  "self._ancilla >= old(self._ancilla)", "wf(self)", "result is self"])
+                  "self._ancilla >= old(self._ancilla)", "wf(self)", "result is self", "implies(old(bk(self)), bk(self))"])
